@@ -1,7 +1,7 @@
 // fragment indices.rs - NodeIndex / EdgeIndex newtypes (src/graph_impl/mod.rs)
 //@ item src/graph_impl/mod.rs | - | struct NodeIndex
 /// Node identifier.
-#[derive(Copy, Clone, PartialEq, PartialOrd, Eq, Ord)]
+#[derive(Copy, Clone, Default, PartialEq, PartialOrd, Eq, Ord, Hash, Debug)]
 pub struct NodeIndex<Ix = DefaultIx>(pub Ix);
 //@ end
 
@@ -36,7 +36,7 @@ impl<Ix: IndexType> NodeIndex<Ix> {
 //@ item src/graph_impl/mod.rs | impl<Ix: IndexType> NodeIndex<Ix> | fn new
     #[inline]
     pub fn new(x: usize) -> (r: Self)
-        /*+*/ensures x <= Ix::spec_max() ==> r.0.ix() == x/*-*/
+        /*+*/ensures r == NodeIndex(Ix::spec_new(x)), x <= Ix::spec_max() ==> r.0.ix() == x/*-*/
     {
         NodeIndex(IndexType::new(x))
     }
@@ -82,7 +82,7 @@ impl<Ix: IndexType> EdgeIndex<Ix> {
 //@ item src/graph_impl/mod.rs | impl<Ix: IndexType> EdgeIndex<Ix> | fn new
     #[inline]
     pub fn new(x: usize) -> (r: Self)
-        /*+*/ensures x <= Ix::spec_max() ==> r.0.ix() == x/*-*/
+        /*+*/ensures r == EdgeIndex(Ix::spec_new(x)), x <= Ix::spec_max() ==> r.0.ix() == x/*-*/
     {
         EdgeIndex(IndexType::new(x))
     }
